@@ -528,7 +528,7 @@ theorem ext_types (doc : Doc) (d : SchemaD) (bts : List TypeD)
     extension-declared member (finding S8 excluded) builds, and the schema is exactly the declared content: every
     extension merged into its target in document order. -/
 theorem build_exact_partial (doc : Doc) (d : SchemaD) (bts : List TypeD) (v : ValidExt doc d bts) : build doc = .ok d := by
-  obtain ⟨c, hc, hct, hcd, hcs⟩ := collect_ok doc v.uniqueTypes v.uniqueDirectives v.oneSchema
+  obtain ⟨c, hc, hct, hcd, hcs⟩ := collect_ok doc v.uniqueTypes v.uniqueDirectives v.oneSchema v.noBuiltinNames
   obtain ⟨hts, hds, hd⟩ := declared_parts doc d v.declares
   obtain ⟨r0, hr0, hrx⟩ := v.rootsOk
   -- directive definitions
@@ -585,7 +585,15 @@ theorem build_exact_partial (doc : Doc) (d : SchemaD) (bts : List TypeD) (v : Va
     have eb := ok_inj hts
     rw [eb, er]
     exact congrArg Except.ok hd.symm
-  · simp only [hE, Bool.false_eq_true, if_false, hext, hcyc, hrx, toSchemaD]
+  · -- no extension targets a specified type: every target is a definition of the document
+    have hkind : (typeExts doc).any (fun e => isDefaultName e.name && e.kind != builtinKind e.name) = false := by
+      rw [List.any_eq_false]
+      intro e he
+      obtain ⟨t, ht, hn, _⟩ := v.extTargets e he
+      have := v.noBuiltinNames t ht
+      rw [hn] at this
+      simp [this]
+    simp only [hE, Bool.false_eq_true, if_false, hkind, hext, hcyc, hrx, toSchemaD]
     exact congrArg Except.ok hd.symm
 
 /-- non-vacuity of `ValidExt`: every extension-free valid document (e.g. `exDoc` of `C11_exact.lean`) whose members
